@@ -960,3 +960,74 @@ def oracle_c15(evs, term, case):
                 break
     return out
 
+
+# ---------------- C18: arrival order of hand-polled Acquire futures on strictly fair semaphores ----------------
+def oracle_acq_fifo(evs, term, case):
+    """Records 42 [slot] (Acquire created), 43 [slot, 0 Ready | 1 Closed | 2 Pending] (one poll), 44 [slot] (dropped); the
+    semaphore is named by the operation (q<n|p|d><table>.<slot>.<sem>).  A request enters the queue of a strictly fair
+    semaphore at its first Pending poll and is granted in that order: if slot x becomes Ready while a slot y that was queued
+    before x arrived has not been dropped and is still Pending at its next poll, x has overtaken y.  (Grants are never
+    revoked, so a y granted before x completed would be Ready at its next poll.  Requests of blocking acquires are invisible
+    here and only add waiters.)  By design a queued waiter whose registering task has FINISHED is stale and is discarded from
+    the front of the queue (batch_semaphore.rs, unblock_waiters_from_front): such a y is no witness."""
+    out = []
+    attr = attribute(evs, case)
+    objs = case["objs"]
+    polls = {}       # (sem, slot) -> list of (pos, res, task)
+    drops = {}
+    ended = {}       # task -> position of the end of its body
+    for i, e in enumerate(evs):
+        if e.kind != "O":
+            continue
+        if e.tag == 9:
+            ended[e.task] = i
+            continue
+        if e.tag not in (42, 43, 44):
+            continue
+        op = attr[i]
+        if not op or not op.startswith("q"):
+            continue
+        f = op[2:].split(".")
+        try:
+            sem = int(f[2])
+        except (IndexError, ValueError):
+            continue
+        if sem >= len(objs) or not objs[sem].startswith("s") or not objs[sem].endswith(":f"):
+            continue
+        key = (sem, e.vals[0])
+        if e.tag == 42:
+            polls[key] = []
+            drops.pop(key, None)
+        elif e.tag == 43 and len(e.vals) > 1:
+            polls.setdefault(key, []).append((i, e.vals[1], e.task))
+        else:
+            drops[key] = i
+    for (sem, x), px in polls.items():
+        ready = [p for p, r, _ in px if r == 0]
+        if not ready:
+            continue
+        p_ready = ready[0]
+        arrival = px[0][0]
+        for (sem2, y), py in polls.items():
+            if sem2 != sem or y == x or not py:
+                continue
+            fp = next(((p, t) for p, r, t in py if r == 2), None)
+            if fp is None or fp[0] > arrival:
+                continue
+            if any(p < p_ready and r in (0, 1) for p, r, _ in py):
+                continue                      # y was served or failed before
+            dy = drops.get((sem, y))
+            if dy is not None and dy < p_ready:
+                continue
+            nxt = next(((p, r) for p, r, _ in py if p > p_ready), None)
+            if nxt is None or nxt[1] != 2 or (dy is not None and dy < nxt[0]):
+                continue
+            # the tasks that polled y while it was queued: if any of them has finished before y's next poll, y may have been
+            # discarded as stale and re-queued
+            pollers = {t for p, r, t in py if p <= nxt[0]}
+            if any(t in ended and ended[t] < nxt[0] for t in pollers):
+                continue
+            out.append(("C18", "strictly fair semaphore %d: the request in slot %d (arrived at event %d) was granted at event %d while the request in slot %d, queued since event %d by a task "
+                               "that is still running, was still waiting at its next poll (event %d): a later request overtook a queued one" % (sem, x, arrival, p_ready, y, fp[0], nxt[0]), None))
+            return out
+    return out
